@@ -49,13 +49,16 @@ PLAN = dict(
     build=["c16"],
     mc=[dict(module="MC_Ownership", cfg_quick="MC_Ownership_quick.cfg", cfg_thorough="MC_Ownership.cfg",
              workers=6, timeout_quick=900, timeout_thorough=5400, xmx="12g",
-             may_be_unused=["A_StreamExport", "A_StreamNext", "A_NewNested"]),    # off in the quick model, explored in thorough and GEN
+             may_be_unused=["A_StreamExport", "A_StreamNext", "A_NewNested", "A_Shrink"]),    # off in the quick model; own models / GEN
         # nested arrays (two custom regions) and their export / import / stream, 2 handle slots + the derived region
         dict(module="MC_Ownership", cfg="MC_Ownership_nested.cfg", workers=6, timeout=900, xmx="8g",
-             may_be_unused=["A_WrapN"]),     # needs three handle slots; taken in the other models
+             may_be_unused=["A_WrapN", "A_Shrink"]),     # need three handle slots / the shrink model
+        # Buffer::shrink_to_fit and empty prefix slices (capacity / reservation follow the wanted size, incl. 0)
+        dict(module="MC_Ownership", cfg_quick="MC_Ownership_shrink.cfg", cfg_thorough="MC_Ownership_shrink3.cfg", workers=6,
+             timeout=3600, xmx="8g", may_be_unused=["A_WrapN", "A_StreamExport", "A_StreamNext", "A_NewNested"]),
         # all histories of 4 handle slots over 2 regions (every drop order of 4 references)
         dict(module="MC_Ownership", cfg="MC_Ownership_4h.cfg", tiers=("thorough",), workers=6, timeout=5400, xmx="12g",
-             may_be_unused=["A_StreamExport", "A_StreamNext", "A_NewNested"])],
+             may_be_unused=["A_StreamExport", "A_StreamNext", "A_NewNested", "A_Shrink"])],
     drive=[dict(bin="c16", args=["c16"], timeout=1800)],
     tv=[
         dict(glob="own-*.ndjson", module="Trace_Ownership", cfg="Trace_Ownership.cfg", stateful=True, reset_ops=["reset"],
@@ -66,7 +69,7 @@ PLAN = dict(
                "owners and exported C structs; handles = Buffers, slices, arrays with and without validity, arrays of nested types "
                "(validity, dictionary, struct, list, dictionary-in-list: one custom-owned region per buffer), exported and imported "
                "FFI arrays and C streams; every history of new / clone / slice / wrap-in-array / export / import / drop / into_mutable / into_vec / "
-               "unary_mut / try_unary_mut (succeeding and failing closure) / BooleanBuffer ^= / claim, i.e. every drop order and "
+               "unary_mut / try_unary_mut (succeeding and failing closure) / BooleanBuffer ^= / shrink_to_fit / claim, i.e. every drop order and "
                "interleaving) against: no live handle refers to released memory, what a live handle shows never changes, every "
                "owner is released exactly once and exactly when its last reference goes, content changes only in a step that starts "
                "with a single reference, the pool equals the live claimed regions, an imported array mirrors the exported one. The "
